@@ -310,6 +310,15 @@ func checkC10(c *Ctx) {
 				}
 			}
 		}
+		// a function split off for the streaming answer mode is handed the streaming responder itself
+		for i, prm := range post.Params {
+			if i == 0 && post.Signature.Recv() != nil {
+				continue // the handler itself serves both modes
+			}
+			if c10StreamingType(c, prm.Type()) {
+				sse = true
+			}
+		}
 		isSSESender := func(v ssa.Value) bool {
 			for _, s := range senders {
 				if v == ssa.Value(s.call) {
